@@ -306,6 +306,12 @@ let handle (line : string) : string =
      | Some (k, n) -> Printf.sprintf "ok %d/%d" (int_of_nat k) (int_of_nat n)
      | None -> "none")
   | [ "nuke"; h ] -> "ok " ^ hex_of_bytes (nuke (bytes_of_hex h))
+  | [ "htmlstruct"; h ] ->
+    let ev e = match e with
+      | HOpen -> "O" | HClose -> "C" | HTagEnd -> "T" | HAttr -> "A"
+      | HName c -> Printf.sprintf "N%02x" (int_of_n c) in
+    let (st, evs) = hrun Data (bytes_of_hex h) in
+    "ok " ^ String.concat "" (List.map ev evs) ^ (match st with Data -> " D" | _ -> " X")
   | "nukedoc" :: ps ->
     (* a document of pieces: A = after-sentinel, B = before-sentinel, T<hex> = text run *)
     let piece p =
